@@ -69,6 +69,7 @@ public:
   void endRead()
   {
     _queue->readIndex.store(_readEnd, std::memory_order_release);
+    BINLOG_VERIF_POINT("queue-release");
   }
 
 private:
